@@ -1,5 +1,5 @@
 /-
-M7 — the schema IR of `parser/src/json/schema.rs` (`enum Schema`, objects and `$ref` aside) with
+M7 — the schema IR of `parser/src/json/schema.rs` (`enum Schema`; `$ref` and `patternProperties` aside) with
 `normalize`, `is_verifiably_disjoint_from` and `intersect` (the function behind `allOf`, `anyOf`,
 `oneOf`, `enum`, `const` and sibling keywords), and the meaning of an IR node as a predicate on JSON
 values (`sat`).  Bounds are exact decimals (`Js.Num`; the code holds `f64`), `multipleOf` values are
@@ -42,9 +42,15 @@ inductive Sch where
   | array (minItems : Nat) (maxItems : Option Nat) (pre : SchL) (itemsNone : Bool) (items : Sch)
   | anyOf (opts : SchL)
   | oneOf (opts : SchL)
+  /-- objects without `patternProperties`; `apNone`: `additional_properties` is `None` (then `ap` is `any`) -/
+  | object (props : SchKL) (apNone : Bool) (ap : Sch) (required : List String) (minP : Nat) (maxP : Option Nat)
 inductive SchL where
   | nil
   | cons (h : Sch) (t : SchL)
+/-- `IndexMap<String, Schema>` in insertion order -/
+inductive SchKL where
+  | nil
+  | cons (k : String) (s : Sch) (t : SchKL)
 end
 
 instance : Inhabited Sch := ⟨Sch.any⟩
@@ -60,6 +66,46 @@ def SchL.append : SchL → SchL → SchL
   | .cons h t, b => .cons h (t.append b)
 
 def SchL.snoc (l : SchL) (x : Sch) : SchL := l.append (.cons x .nil)
+
+def SchKL.append : SchKL → SchKL → SchKL
+  | .nil, b => b
+  | .cons k s t, b => .cons k s (t.append b)
+
+def SchKL.hasKey : SchKL → String → Bool
+  | .nil, _ => false
+  | .cons k _ t, key => k == key || t.hasKey key
+
+def SchKL.lookup : SchKL → String → Option Sch
+  | .nil, _ => none
+  | .cons k s t, key => if k == key then some s else t.lookup key
+
+def SchKL.keys : SchKL → List String
+  | .nil => []
+  | .cons k _ t => k :: t.keys
+
+/-- `ctx.property_schema(obj, key)` without pattern properties: the named property or the additional-properties schema -/
+def propSchema (props : SchKL) (ap : Sch) (key : String) : Sch :=
+  match props.lookup key with
+  | some s => s
+  | none => ap
+
+/-- first loop of the object arm: every property of the left object against the right object's schema for its name -/
+def SchKL.mapLeft (g : Sch → Sch → Option Sch) (p2 : SchKL) (ap2 : Sch) : SchKL → Option SchKL
+  | .nil => some .nil
+  | .cons k s t => do
+    let s' ← g s (propSchema p2 ap2 k)
+    let t' ← SchKL.mapLeft g p2 ap2 t
+    pure (.cons k s' t')
+
+/-- second loop: the properties of the right object whose name the left one does not list -/
+def SchKL.mapRight (g : Sch → Sch → Option Sch) (p1 : SchKL) (ap1 : Sch) : SchKL → Option SchKL
+  | .nil => some .nil
+  | .cons k s t =>
+    if p1.hasKey k then SchKL.mapRight g p1 ap1 t
+    else do
+      let s' ← g (propSchema p1 ap1 k) s
+      let t' ← SchKL.mapRight g p1 ap1 t
+      pure (.cons k s' t')
 
 def SchL.mapM (g : Sch → Option Sch) : SchL → Option SchL
   | .nil => some .nil
@@ -123,11 +169,21 @@ def sat (ρ : String → String → Bool) (isMult : Dec → Num → Bool) : Sch 
      | _ => false)
   | .anyOf l, v => satAny ρ isMult l v
   | .oneOf l, v => satCount ρ isMult l v == 1
+  | .object props _ ap req lo hi, v =>
+    (match v with
+     | .obj kvs => req.all (fun k => kvs.any (fun kv => kv.1 == k)) && decide (lo ≤ kvs.length) &&
+         optAll hi (fun h => decide (kvs.length ≤ h)) &&
+         kvs.all (fun kv => satKV ρ isMult (sat ρ isMult ap) props kv.1 kv.2)
+     | _ => false)
 /-- elements against the prefix schemas, the rest against `items` (given as its meaning `f`) -/
 def satPre (ρ : String → String → Bool) (isMult : Dec → Num → Bool) (f : Json → Bool) : SchL → List Json → Bool
   | .nil, xs => xs.all f
   | .cons _ _, [] => true
   | .cons p ps, x :: xs => sat ρ isMult p x && satPre ρ isMult f ps xs
+/-- the value of the member `key` against its property schema, or against additional properties (`f`) -/
+def satKV (ρ : String → String → Bool) (isMult : Dec → Num → Bool) (f : Json → Bool) : SchKL → String → Json → Bool
+  | .nil, _, v => f v
+  | .cons k s t, key, v => if k == key then sat ρ isMult s v else satKV ρ isMult f t key v
 def satAny (ρ : String → String → Bool) (isMult : Dec → Num → Bool) : SchL → Json → Bool
   | .nil, _ => false
   | .cons h t, v => sat ρ isMult h v || satAny ρ isMult t v
@@ -160,7 +216,7 @@ def isLit : Option RxT → Option String
 /-- constructor index, as `mem::discriminant` -/
 def Sch.tag : Sch → Nat
   | .any => 0 | .unsat => 1 | .null => 2 | .boolean _ => 3 | .number _ => 4 | .string _ _ _ => 5
-  | .array _ _ _ _ _ => 6 | .anyOf _ => 7 | .oneOf _ => 8
+  | .array _ _ _ _ _ => 6 | .anyOf _ => 7 | .oneOf _ => 8 | .object _ _ _ _ _ _ => 9
 
 mutual
 /-- `is_verifiably_disjoint_from` -/
@@ -179,6 +235,8 @@ def disjoint : Nat → Sch → Sch → Bool
     (match isLit r1, isLit r2 with
      | some a, some b => a != b
      | _, _ => (Sch.string l1 h1 r1).tag != (Sch.string l2 h2 r2).tag)
+  | f + 1, .object p1 _ a1 r1 _ _, .object p2 _ a2 r2 _ _ =>
+    (r1 ++ r2.filter (fun k => !r1.contains k)).any (fun key => disjoint f (propSchema p1 a1 key) (propSchema p2 a2 key))
   | _ + 1, a, b => a.tag != b.tag
 def disjAllL : Nat → SchL → Sch → Bool
   | _, .nil, _ => true
@@ -193,10 +251,14 @@ def Sch.size : Sch → Nat
   | .array _ _ pre _ items => pre.size + items.size + 1
   | .anyOf l => l.size + 1
   | .oneOf l => l.size + 1
+  | .object props _ ap _ _ _ => props.size + ap.size + 1
   | _ => 1
 def SchL.size : SchL → Nat
   | .nil => 1
   | .cons h t => h.size + t.size + 1
+def SchKL.size : SchKL → Nat
+  | .nil => 1
+  | .cons _ s t => s.size + t.size + 1
 end
 
 def disj (a b : Sch) : Bool := disjoint (a.size + b.size + 1) a b
@@ -297,6 +359,24 @@ def intersect (lcm : Dec → Dec → Option Dec) : Nat → Sch → Sch → Optio
            | true, false => some (.array (max l1 l2) (optMinNat h1 h2) pre false i2)
            | false, true => some (.array (max l1 l2) (optMinNat h1 h2) pre false i1)
            | false, false => (intersect lcm f i1 i2).map (fun it => .array (max l1 l2) (optMinNat h1 h2) pre false it))
+      | .object p1 n1 a1 r1 lo1 hi1, .object p2 n2 a2 r2 lo2 hi2 =>
+        match SchKL.mapLeft (intersect lcm f) p2 a2 p1, SchKL.mapRight (intersect lcm f) p1 a1 p2 with
+        | some q1, some q2 =>
+          let ap : Option (Bool × Sch) :=
+            match n1, n2 with
+            | true, true => some (true, .any)
+            | true, false => some (false, a2)
+            | false, true => some (false, a1)
+            | false, false => (intersect lcm f a1 a2).map (fun x => (false, x))
+          ap.map (fun ap =>
+            let req := r1 ++ r2.filter (fun k => !r1.contains k)
+            let lo := max lo1 lo2
+            let hi := optMinNat hi1 hi2
+            -- `mk_object_schema`
+            if (match hi with | some h => decide (lo > h) | none => false) then .unsat
+            else if (match hi with | some h => decide (req.length > h) | none => false) then .unsat
+            else .object (q1.append q2) ap.1 ap.2 req lo hi)
+        | _, _ => none
       | _, _ => some .unsat
     core.map normalize
 
@@ -335,10 +415,16 @@ def showS : Sch → String
       (if none_ then "_" else showS items) ++ ")"
   | .anyOf l => "(anyof" ++ (match l with | .nil => "" | _ => " ") ++ showL l ++ ")"
   | .oneOf l => "(oneof" ++ (match l with | .nil => "" | _ => " ") ++ showL l ++ ")"
+  | .object props none_ ap req lo hi => "(obj (" ++ showKL props ++ ") " ++ (if none_ then "_" else showS ap) ++
+      " (" ++ " ".intercalate req ++ ") " ++ toString lo ++ " " ++ showOpt toString hi ++ ")"
 def showL : SchL → String
   | .nil => ""
   | .cons h .nil => showS h
   | .cons h t => showS h ++ " " ++ showL t
+def showKL : SchKL → String
+  | .nil => ""
+  | .cons k s .nil => "(" ++ k ++ " " ++ showS s ++ ")"
+  | .cons k s t => "(" ++ k ++ " " ++ showS s ++ ") " ++ showKL t
 end
 
 end Sch
